@@ -103,8 +103,25 @@ class CSession(KSession):
         self.keep = []            # keep complex objects alive (ids must stay unique)
         self.UC = self.lib.UncertainComplex
         self.UR = self.lib.UncertainReal
+        # float ** 2 inside willink_hall / _covariance_submatrix: record the operands (rule-based pow rows)
+        lib = self.lib
+        self._saved_lib = (lib._covariance_submatrix, lib.std_variance_covariance_complex)
+        cs0, sv0 = self._saved_lib
+        def cov_sub(u_re, u_im):
+            for v in list(u_re._value) + list(u_im._value):
+                self.extra.append(pow_entry(v, 2))
+            r = cs0(u_re, u_im)
+            self.extra.append(pow_entry(r[1], 2))
+            return r
+        def svcc(x):
+            r = sv0(x)
+            self.extra.append(pow_entry(r[0] + r[3], 2))
+            return r
+        lib._covariance_submatrix = cov_sub
+        lib.std_variance_covariance_complex = svcc
 
     def close(self):
+        self.lib._covariance_submatrix, self.lib.std_variance_covariance_complex = self._saved_lib
         self.crec.__exit__()
         KSession.close(self)
 
@@ -113,6 +130,36 @@ class CSession(KSession):
         r = KSession.record(self, opterm, pyop, thunk, multi)
         self.ops[-1] = '(CK %s)' % self.ops[-1]
         return r
+
+    # an operation that names an empty slot (the result of a failed step) is a generator slip, not a test of
+    # GTC: it is skipped rather than recorded
+    def _ur(self, *idx):
+        return all(0 <= i < len(self.slots) and isinstance(self.slots[i], self.UR) for i in idx)
+    def read(self, attr, a):
+        return KSession.read(self, attr, a) if self._ur(a) else None
+    def un(self, f, a):
+        return KSession.un(self, f, a) if self._ur(a) else None
+    def result(self, a, label=None):
+        return KSession.result(self, a, label) if self._ur(a) else None
+    def sens(self, y, x):
+        return KSession.sens(self, y, x) if self._ur(y, x) else None
+    def ucomp(self, y, x):
+        return KSession.ucomp(self, y, x) if self._ur(y, x) else None
+    def get_cov(self, a, b):
+        return KSession.get_cov(self, a, b) if self._ur(a, b) else None
+    def get_corr(self, a, b):
+        return KSession.get_corr(self, a, b) if self._ur(a, b) else None
+    def set_corr(self, r, a, b):
+        return KSession.set_corr(self, r, a, b) if self._ur(a, b) else None
+    def bin(self, f, a, b):
+        ok = all(x[0] != 'ref' or self._ur(x[1]) for x in (a, b))
+        return KSession.bin(self, f, a, b) if ok else None
+    def _args_ok(self, *args):
+        for a in args:
+            if a is None: continue
+            if a[0] == 'c' and self.cobj(a[1]) is None: return False
+            if a[0] == 'r' and not self._ur(a[1]): return False
+        return True
 
     # ---------------- observation of complex-kernel operations
     def _real_out(self, o):
@@ -138,7 +185,7 @@ class CSession(KSession):
         self.ops.append(opterm)
         self.pyops.append(pyop)
         self.stats[pyop[0]] = self.stats.get(pyop[0], 0) + 1
-        two = kind in ('cplx', 'multi')
+        two = kind in ('cplx', 'multi', 'any2')
         try:
             r = thunk()
         except Exception as ex:
@@ -153,6 +200,23 @@ class CSession(KSession):
                 self.outs.append('(OutExn OtherExn)'); self.slots.extend([None, None])
         elif kind == 'multi':
             self.outs.append('(OutList %s)' % clist([self._push_cplx(z) for z in r]))
+        elif kind == 'any2':
+            # complex result: two component slots; real / plain result: the result and an empty slot
+            if isinstance(r, self.UC):
+                self.outs.append(self._push_cplx(r))
+            elif isinstance(r, self.UR):
+                if id(r) in self.first:
+                    self.outs.append('(OutSame %d)' % self.first[id(r)])
+                else:
+                    self.first[id(r)] = len(self.slots)
+                    self.outs.append(self.dump(r))
+                self.slots.extend([r, None])
+            elif isinstance(r, numbers.Real):
+                self.outs.append('(OutVal %s)' % cf(r)); self.slots.extend([None, None])
+            else:
+                self.outs.append('(OutExn OtherExn)'); self.slots.extend([None, None])
+        elif kind == 'unit':
+            self.outs.append('OutUnit' if r is None else '(OutExn OtherExn)'); self.slots.append(None)
         elif kind == 'real':
             if isinstance(r, self.UR):
                 if id(r) in self.first:
@@ -166,7 +230,9 @@ class CSession(KSession):
             else:
                 self.outs.append('(OutExn OtherExn)'); self.slots.append(None)
         else:   # 'val'
-            if isinstance(r, complex):
+            if isinstance(r, tuple) and len(r) == 2 and r[0] == 'df':
+                self.outs.append('(OutDof %s)' % cdf(r[1]))
+            elif isinstance(r, complex):
                 self.outs.append('(OutList [OutVal %s; OutVal %s])' % (cf(r.real), cf(r.imag)))
             elif isinstance(r, tuple):
                 self.outs.append('(OutList %s)' % clist(['OutVal %s' % cf(v) for v in r]))
@@ -223,6 +289,7 @@ class CSession(KSession):
 
     def cun(self, f, a):
         z = self.cobj(a)
+        if z is None: return None
         v = z._value
         if f in ('magnitude', 'mag_squared'):
             h = hypot_entry(v); self.extra.append(h)
@@ -238,30 +305,70 @@ class CSession(KSession):
         return self.crecord(term, ('cun', f, a), th, 'real' if f in REAL_RESULT else 'cplx')
 
     def cbin(self, f, a, b):
+        """a (op) b where at least one operand is an uncertain number: ('c',i) complex object, ('r',i) uncertain
+        real, ('n',v) plain number.  Without a complex operand the result may still be complex (a complex literal,
+        or ** leaving the reals): such operations always occupy two slots."""
+        if not self._args_ok(a, b): return None
         va, vb = self._arg(a), self._arg(b)
+        xa, xb = self._val(a), self._val(b)
+        anyc = a[0] == 'c' or b[0] == 'c'
         if f == 'pow':
-            self.cextra.append(cpow_entry(self._val(a), self._val(b)))
+            self.cextra.append(cpow_entry(xa, xb))
+            if not anyc:
+                # the real attempt l**r, r*l**(r-1) of lib._pow / lib._rpow
+                if not isinstance(xa, complex) and not isinstance(xb, complex):
+                    self.extra.append(pow_entry(xa, xb)); self.extra.append(pow_entry(xa, xb - 1))
+        if not anyc:
+            for x in (xa, xb):
+                if isinstance(x, complex):
+                    h = hypot_entry(x); self.extra.append(h)       # abs(rhs)**2 in lib._div
+                    if h[2][0] == 'ok': self.extra.append(pow_entry(h[2][1], 2))
         def th():
             if f == 'add': return va + vb
             if f == 'sub': return va - vb
             if f == 'mul': return va * vb
             if f == 'div': return va / vb
             if f == 'pow': return va ** vb
-        return self.crecord('(CBin B_%s %s %s)' % (f, self._argterm(a), self._argterm(b)), ('cbin', f, a, b), th, 'cplx')
+        return self.crecord('(CBin B_%s %s %s)' % (f, self._argterm(a), self._argterm(b)), ('cbin', f, a, b), th,
+                            'cplx' if anyc else 'any2')
 
     def cresult(self, a, label=None):
+        if self.cobj(a) is None: return None
         lab = None if label is None else 'L%d' % label
         return self.crecord('(CResult %d %s)' % (a, copt(label, cz)), ('cresult', a, label),
                             lambda: self.core.result(self.cobj(a), label=lab), 'cplx')
 
     def cread(self, attr, a):
         z = self.cobj(a)
+        if z is None: return None
         def th():
             if attr == 'x': return complex(z.x)
             if attr == 'u': return tuple(z.u)
             if attr == 'v': return tuple(z.v)
             if attr == 'r': return float(z.r)
+            if attr == 'df': return ('df', z.df)
+        if attr == 'df':
+            # the independent influences: re_u[id]**2, im_u[id]**2, (re_u[id]*im_u[id])**2
+            from GTC import vector
+            try:
+                re_u = vector.extend_vector(z.real._u_components, z.imag._u_components)
+                im_u = vector.extend_vector(z.imag._u_components, z.real._u_components)
+                for x, y in zip(re_u._value, im_u._value):
+                    self.extra.append(pow_entry(x, 2)); self.extra.append(pow_entry(y, 2)); self.extra.append(pow_entry(x * y, 2))
+            except Exception:
+                pass
         return self.crecord('(CRead CR_%s %d)' % (attr, a), ('cread', attr, a), th, 'val')
+
+    def cset_corr(self, r, a, b=None):
+        """core.set_correlation(r, z, arg2) with z the complex object in slot a; r a float or a list;
+        b: None | ('c', i) | ('r', i) | ('n', v)"""
+        z = self.cobj(a)
+        if z is None or not self._args_ok(b): return None
+        rt = '(RSeq %s)' % clist([cf(v) for v in r]) if isinstance(r, (list, tuple)) else '(RScalar %s)' % cf(r)
+        bt = 'None' if b is None else '(Some %s)' % self._argterm(b)
+        ob = None if b is None else self._arg(b)
+        return self.crecord('(CSetCorr %s %d %s)' % (rt, a, bt), ('cset_corr', r, a, b),
+                            lambda: self.core.set_correlation(r, z, ob), 'unit')
 
     def _sens_ok(self, x):
         """the model does not cover repr() of a complex argument (complex dof): skip those"""
@@ -273,7 +380,7 @@ class CSession(KSession):
         return True
 
     def _sens(self, name, fn, y, x):
-        if not self._sens_ok(x): return None
+        if not self._args_ok(y, x) or not self._sens_ok(x): return None
         oy, ox = self._arg(y), self._arg(x)
         def th():
             r = fn(oy, ox)
@@ -370,6 +477,7 @@ def run_pyops(pyops, ctx_id):
         elif k == 'cbin': s.cbin(op[1], arg(op[2]), arg(op[3]))
         elif k == 'cresult': s.cresult(op[1], label=op[2])
         elif k == 'cread': s.cread(op[1], op[2])
+        elif k == 'cset_corr': s.cset_corr(tup(op[1]) if isinstance(op[1], list) else op[1], op[2], None if op[3] is None else arg(op[3]))
         elif k == 'csens': s.csens(arg(op[1]), arg(op[2]))
         elif k == 'cucomp': s.cucomp(arg(op[1]), arg(op[2]))
         elif k == 'ureal': s.ureal(op[1], op[2], op[3], label=op[4], indep=op[5])
